@@ -205,6 +205,8 @@ def _setters(program: Program, run: Run) -> None:
                     for tn, vn in pairs:
                         if isinstance(tn, ast.Name) and stores_.get(tn.id) == 1 and isinstance(vn, (ast.Name, ast.Attribute)):
                             alias[tn.id] = ast.unparse(vn)
+                elif isinstance(node, ast.NamedExpr) and isinstance(node.target, ast.Name) and stores_.get(node.target.id) == 1 and isinstance(node.value, (ast.Name, ast.Attribute)):
+                    alias[node.target.id] = ast.unparse(node.value)      # `if (start := slice.start) is not None:`
 
             def src_text(x) -> str:
                 return alias.get(x.id, x.id) if isinstance(x, ast.Name) else ast.unparse(x)
@@ -260,8 +262,13 @@ def _setters(program: Program, run: Run) -> None:
                     run.finding(f"C09/setter-drops-zero:{c.qualname}.{name}:{attr_}",
                                 f"{c.qualname}.{name} stores {attr_} only when `{badg[0]}` is truthy: a 0 is skipped, so an offset/limit recorded by an earlier call stays in force "
                                 f"(q.offset(20)[0:5] keeps OFFSET 20) although 0 was requested", where=f.loc(st_), rule="setters")
-            ok = set(got) == set(mapping) and all(mapping[a] in got[a] for a in mapping) and not reads
-            wraps = all(any("wrap_constant" in s for s in got.get(a, ())) for a in mapping)
+            # the slots the method is named for come from its own argument; a further row-count slot may be written as well
+            # (`limit(n, offset=m)`) when it comes from the parameter named after it; other attributes are not this rule's
+            rowslots = {"_limit", "_offset"}
+            extra_slots = (set(got) & rowslots) - set(mapping)
+            ok = (set(mapping) <= set(got) and all(mapping[a] in got[a] for a in mapping) and not reads
+                  and all(e.lstrip("_") in got[e] and e.lstrip("_") in f.params for e in extra_slots))
+            wraps = all(any("wrap_constant" in s for s in got.get(a, ())) for a in set(mapping) | extra_slots)
             run.ob("C09 setter writes its own slot from its own argument, wrapped", f"{c.qualname}.{name}", ok and wraps,
                    detail=f"writes={ {k: sorted(v)[:4] for k, v in got.items()} } reads={sorted(reads)}", where=f.loc())
             if not (ok and wraps):
